@@ -6,7 +6,8 @@
      in == [shape |-> "named" | "tuple" | "unit",                      \* the deriving struct
             form  |-> "same" | "struct" | "tuple" | "bare" | "unit",   \* how the counterpart is written: no hint / as {} / as () / (..) / as Unit
             ms    |-> Seq(Item),                                       \* member-level instruction of member i
-            sg    |-> Nat, sgm |-> "both" | "split",                   \* struct-level ghosts entries (counterpart-only leaves x1..)
+            sg    |-> Nat, sgm |-> "both" | "split" | "ded",           \* struct-level ghosts entries (counterpart-only leaves x1..); "ded": a default
+                                                                       \* #[ghosts] with other values written first + one dedicated to each counterpart (they win)
             vars  |-> 0..2, upd |-> BOOLEAN, ret |-> BOOLEAN]          \* trait-instruction parameters (C08)
    Values are symbolic strings: "S.<member>" (leaf of the deriving struct), "D.<leaf>" (leaf of the counterpart),
    "P.<leaf>" (leaf of a pre-existing destination), "U.<leaf>" (leaf of the ..update base), "R.<leaf>" (leaf of the
@@ -71,6 +72,7 @@ WellFormed(in) ==
   /\ (\E i \in DOMAIN in.ms : in.ms[i] = "ghostb") => in.upd                              \* class 7 otherwise
   /\ in.upd => in.shape = "named" /\ EffForm(in) = "named"                                \* functional update needs braces
   /\ in.sg > 0 => EffForm(in) # "unit"
+  /\ in.sgm = "ded" => in.form # "bare" /\ \A i \in DOMAIN in.ms : in.ms[i] \notin {"gowned", "gref"}
   /\ in.ret => in.sg = 0 /\ in.vars = 0 /\ ~in.upd
 
 \* ---- denotation ----
@@ -92,7 +94,7 @@ IntoVal(in, i) ==
   ELSE IF HasAction(it) THEN Tag(i, "S." \o Own(in, i))
   ELSE "S." \o Own(in, i)
 Mapped(in, k) == {i \in DOMAIN in.ms : ~GhostFor(in.ms[i], k)}
-SGVal(in, j, k) == IF in.sgm = "both" \/ k \in OwnedKinds THEN "gx" \o N2S(j) \o "()" ELSE "gy" \o N2S(j) \o "()"
+SGVal(in, j, k) == IF in.sgm \in {"both", "ded"} \/ k \in OwnedKinds THEN "gx" \o N2S(j) \o "()" ELSE "gy" \o N2S(j) \o "()"
 \* a member that is ghost for one ownership only has its counterpart leaf supplied by ghosts_owned / ghosts_ref
 Supplied(in, k) == {[leaf |-> CM(in, i), val |-> (IF in.ms[i] = "gowned" THEN "go" ELSE "gr") \o N2S(i) \o "()"] :
                       i \in {j \in DOMAIN in.ms : in.ms[j] \in {"gowned", "gref"} /\ GhostFor(in.ms[j], k)}}
